@@ -88,6 +88,12 @@ class FS:
         self.all_calls = 0
         self.call_counts = {}
         self.write_buffering = self.knobs.get("buffering", -1)
+        # jail: a mutating call by a simulated actor whose target lies (or
+        # resolves through symlinks) outside the sandbox is recorded and
+        # refused with EACCES, so code under test can never modify the host
+        self.jail = bool(self.knobs.get("jail", False))
+        self.escapes = []
+        self.escape_hook = None
         self.listdir_rng = None
         self.tmp_rng = _random.Random(0)
         if sim is not None:
@@ -116,6 +122,41 @@ class FS:
         if p == self.root:
             return ""
         return None
+
+    def resolve_target(self, call, rel):
+        """Where a mutating call on sandbox path ``rel`` really lands."""
+        ab = os.path.join(self.root, rel) if rel else self.root
+        if call in FOLLOWING_CALLS:
+            try:
+                return R.realpath(ab)
+            except OSError:
+                pass
+        parent = R.realpath(os.path.dirname(ab))
+        return os.path.join(parent, os.path.basename(ab))
+
+    def in_sandbox(self, p):
+        return p == self.root or p.startswith(self.rootp)
+
+    def deny_escape(self, call, path):
+        sim = self.sim
+        self.escapes.append((call, os.fsdecode(os.fspath(path))))
+        if sim is not None and sim.current is not None:
+            sim.log(sim.current.name, "ESCAPE-DENIED", None, call)
+        if self.escape_hook is not None:
+            self.escape_hook(call, os.fsdecode(os.fspath(path)))
+        raise PermissionError(_errno.EACCES,
+                              "simulated host: outside the sandbox",
+                              os.fsdecode(os.fspath(path)))
+
+    def jail_check(self, call, rel):
+        if not self.jail or rel is None:
+            return
+        sim = self.sim
+        if sim is None or sim.current is None or sim.aborting:
+            return
+        tgt = self.resolve_target(call, rel)
+        if not self.in_sandbox(tgt):
+            self.deny_escape(call, tgt)
 
     # ---------------------------------------------------------------- clock
     def now(self):
@@ -209,6 +250,8 @@ class FS:
                 self.boundary_hook(self, call, rel, n)
             for fn in sim.pre_listeners:
                 fn(sim, a, call, rel)
+            if self.jail and call in PATH_MUT_CALLS:
+                self.jail_check(call, rel)
             kind = sim.faults.get((a.name, n))
             if kind is not None and sim.fault_filter is not None and \
                     not sim.fault_filter(call, rel):
@@ -567,12 +610,27 @@ class VScandir:
 
 
 # ---------------------------------------------------------------- wrappers
-def _fs_for(path):
+# calls that follow a symlink in the last path component
+FOLLOWING_CALLS = frozenset(["open_w", "chmod", "utime", "truncate"])
+PATH_MUT_CALLS = frozenset(["open_w", "open_excl", "mkdir", "rmdir", "unlink",
+                            "rename", "replace", "link", "symlink", "chmod",
+                            "utime", "truncate"])
+
+
+def _fs_for(path, mutcall=None):
     fs = STATE
     if fs is None:
         return None, None
     rel = fs.rel(path)
     if rel is None:
+        if mutcall is not None and fs.jail and not isinstance(path, int) \
+                and fs.sim is not None and fs.sim.current is not None \
+                and not fs.sim.aborting:
+            try:
+                ap = os.path.abspath(os.fspath(path))
+            except TypeError:
+                return None, None
+            fs.deny_escape(mutcall, ap)
         return None, None
     return fs, rel
 
@@ -587,7 +645,9 @@ def _ordered(fs, names, key=None):
 
 
 def w_open(path, flags, mode=0o777, *, dir_fd=None):
-    fs, rel = _fs_for(path)
+    fs, rel = _fs_for(path, "open_w" if dir_fd is None and (
+        flags & (os.O_CREAT | os.O_TRUNC) or
+        flags & os.O_ACCMODE != os.O_RDONLY) else None)
     if fs is None or dir_fd is not None:
         if dir_fd is not None:
             return R.os_open(path, flags, mode, dir_fd=dir_fd)
@@ -731,7 +791,7 @@ def w_scandir(path="."):
 def w_mkdir(path, mode=0o777, *, dir_fd=None):
     if dir_fd is not None:
         return R.mkdir(path, mode, dir_fd=dir_fd)
-    fs, rel = _fs_for(path)
+    fs, rel = _fs_for(path, "mkdir")
     if fs is None:
         return R.mkdir(path, mode)
     fs.pre("mkdir", rel, mut=True)
@@ -744,7 +804,7 @@ def w_mkdir(path, mode=0o777, *, dir_fd=None):
 def w_rmdir(path, *, dir_fd=None):
     if dir_fd is not None:
         return R.rmdir(path, dir_fd=dir_fd)
-    fs, rel = _fs_for(path)
+    fs, rel = _fs_for(path, "rmdir")
     if fs is None:
         return R.rmdir(path)
     fs.pre("rmdir", rel, mut=True)
@@ -763,7 +823,7 @@ def w_rmdir(path, *, dir_fd=None):
 def w_unlink(path, *, dir_fd=None):
     if dir_fd is not None:
         return R.unlink(path, dir_fd=dir_fd)
-    fs, rel = _fs_for(path)
+    fs, rel = _fs_for(path, "unlink")
     if fs is None:
         return R.unlink(path)
     fs.pre("unlink", rel, mut=True)
@@ -782,12 +842,14 @@ def w_unlink(path, *, dir_fd=None):
 def _rename_common(call, realfn, src, dst, kw):
     if kw:
         return realfn(src, dst, **kw)
-    fs, rel = _fs_for(src)
-    fs2, rel2 = _fs_for(dst)
+    fs, rel = _fs_for(src, call)
+    fs2, rel2 = _fs_for(dst, call)
     if fs is None and fs2 is None:
         return realfn(src, dst)
     fs = fs or fs2
     fs.pre(call, rel if rel is not None else rel2, mut=True)
+    if rel is not None and rel2 is not None:
+        fs.jail_check(call, rel2)
     sst = dstst = None
     try:
         sst = R.lstat(src)
@@ -819,7 +881,7 @@ def w_replace(src, dst, **kw):
 
 
 def w_link(src, dst, **kw):
-    fs, rel = _fs_for(dst)
+    fs, rel = _fs_for(dst, None if kw else "link")
     if fs is None or kw:
         return R.link(src, dst, **kw)
     fs.pre("link", rel, mut=True)
@@ -832,7 +894,7 @@ def w_link(src, dst, **kw):
 def w_symlink(src, dst, target_is_directory=False, *, dir_fd=None):
     if dir_fd is not None:
         return R.symlink(src, dst, target_is_directory, dir_fd=dir_fd)
-    fs, rel = _fs_for(dst)
+    fs, rel = _fs_for(dst, "symlink")
     if fs is None:
         return R.symlink(src, dst, target_is_directory)
     fs.pre("symlink", rel, mut=True)
@@ -855,7 +917,7 @@ def w_chmod(path, mode, *, dir_fd=None, follow_symlinks=True):
     if dir_fd is not None or not follow_symlinks:
         return R.chmod(path, mode, dir_fd=dir_fd,
                        follow_symlinks=follow_symlinks)
-    fs, rel = _fs_for(path)
+    fs, rel = _fs_for(path, "chmod")
     if fs is None:
         return R.chmod(path, mode)
     fs.pre("chmod", rel, mut=True)
@@ -873,7 +935,7 @@ def w_utime(path, times=None, *, ns=None, dir_fd=None, follow_symlinks=True):
                        follow_symlinks=follow_symlinks) if ns is not None \
             else R.utime(path, times, dir_fd=dir_fd,
                          follow_symlinks=follow_symlinks)
-    fs, rel = _fs_for(path)
+    fs, rel = _fs_for(path, "utime")
     if fs is None:
         if ns is not None:
             return R.utime(path, ns=ns, follow_symlinks=follow_symlinks)
@@ -894,7 +956,7 @@ def w_utime(path, times=None, *, ns=None, dir_fd=None, follow_symlinks=True):
 def w_truncate(path, length):
     if isinstance(path, int):
         return w_ftruncate(path, length)
-    fs, rel = _fs_for(path)
+    fs, rel = _fs_for(path, "truncate")
     if fs is None:
         return R.truncate(path, length)
     fs.pre("truncate", rel, mut=True)
@@ -911,6 +973,8 @@ def w_builtin_open(file, mode="r", buffering=-1, encoding=None, errors=None,
     isfd = isinstance(file, int)
     rel = fs.rel(file)
     if rel is None:
+        if not isfd and any(c in mode for c in "wax+"):
+            _fs_for(file, "open_w")
         return R.open(file, mode, buffering, encoding, errors, newline,
                       closefd, opener)
     writable = any(c in mode for c in "wax+")
@@ -973,7 +1037,7 @@ def _bufsize(fs, buffering):
 
 def w_rmtree(path, ignore_errors=False, onerror=None, *, onexc=None,
              dir_fd=None):
-    fs, rel = _fs_for(path)
+    fs, rel = _fs_for(path, "unlink" if dir_fd is None else None)
     if fs is None or dir_fd is not None:
         return R.rmtree(path, ignore_errors, onerror, onexc=onexc,
                         dir_fd=dir_fd)
